@@ -67,6 +67,7 @@ type zzC01Bad struct {
 	Lists    any          `json:"lists"`
 	History  any          `json:"history"`
 	Ops      []string     `json:"ops"`
+	AddrForm string       `json:"addrform"`
 }
 
 func TestZZVerifC01Replay(t *testing.T) {
@@ -211,7 +212,7 @@ func TestZZVerifC01Replay(t *testing.T) {
 					if bad <= 300 {
 						w.put(zzC01Bad{
 							Kind: "bad", I: l.I, S: si, Q: qi, Req: *req, Rep: o.Rep, Got: o.Out, Want: want,
-							Concrete: o.Concrete, Lists: z.texts, History: history, Ops: z.ops,
+							Concrete: o.Concrete, Lists: z.texts, History: history, Ops: z.ops, AddrForm: o.AddrForm,
 						})
 					}
 
